@@ -53,12 +53,23 @@ Lemma sim_all_0 : sim_all 0.
 Proof. constructor; intros; intros s1 s2 Hs; exact I. Qed.
 
 (** the induction hypothesis, as a leaf tactic for the value operations *)
-Ltac ihv IH :=
-  first [ apply obl_metamethod | apply obl_metatable_of | apply obl_call_ext
-        | apply (sa_call _ IH) | apply (sa_index _ IH) | apply (sa_setindex _ IH)
-        | apply (sa_tostr _ IH) | apply (sa_arith _ IH) | apply (sa_concat _ IH)
-        | apply (sa_equal _ IH) | apply (sa_less _ IH) | apply (sa_length _ IH)
-        | apply (sa_builtin _ IH) | apply (sa_assign_target _ IH) ].
+Ltac ihv IH := idtac;
+  lazymatch goal with
+  | |- rel2 _ (metamethod _ _) (metamethod _ _) => apply obl_metamethod
+  | |- rel2 _ (metatable_of _) (metatable_of _) => apply obl_metatable_of
+  | |- rel2 _ (call_ext _ _) (call_ext _ _) => apply obl_call_ext
+  | |- rel2 _ (call _ _ _ _) (call _ _ _ _) => apply (sa_call _ IH)
+  | |- rel2 _ (index _ _ _ _) (index _ _ _ _) => apply (sa_index _ IH)
+  | |- rel2 _ (setindex _ _ _ _ _) (setindex _ _ _ _ _) => apply (sa_setindex _ IH)
+  | |- rel2 _ (tostr _ _ _) (tostr _ _ _) => apply (sa_tostr _ IH)
+  | |- rel2 _ (arith _ _ _ _ _) (arith _ _ _ _ _) => apply (sa_arith _ IH)
+  | |- rel2 _ (concat _ _ _ _) (concat _ _ _ _) => apply (sa_concat _ IH)
+  | |- rel2 _ (equal _ _ _ _) (equal _ _ _ _) => apply (sa_equal _ IH)
+  | |- rel2 _ (less _ _ _ _ _) (less _ _ _ _ _) => apply (sa_less _ IH)
+  | |- rel2 _ (length _ _ _) (length _ _ _) => apply (sa_length _ IH)
+  | |- rel2 _ (call_builtin _ _ _ _) (call_builtin _ _ _ _) => apply (sa_builtin _ IH)
+  | |- rel2 _ (assign_target _ _ _ _ _) (assign_target _ _ _ _ _) => apply (sa_assign_target _ IH)
+  end.
 
 Section Step.
 Variable n : nat.
@@ -92,5 +103,352 @@ Proof. rewrite less_S. obl_with ltac:(ihv IH). Qed.
 Lemma step_length v : oblivious (length d (S n) v).
 Proof. rewrite length_S. obl_with ltac:(ihv IH). Qed.
 
+Lemma obl_minmax_go b vs : forall acc, oblivious (minmax_go b vs acc).
+Proof.
+  induction vs as [|v vs IHv]; intros acc; cbn [minmax_go]; obl_with ltac:(apply IHv).
+Qed.
+
+Lemma obl_char_go vs : forall acc, oblivious (char_go vs acc).
+Proof.
+  induction vs as [|v vs IHv]; intros acc; cbn [char_go]; obl_with ltac:(apply IHv).
+Qed.
+
+Lemma obl_tconcat_go t sep is : forall acc fi, oblivious (tconcat_go d t sep is acc fi).
+Proof.
+  induction is as [|i is IHi]; intros acc fi; cbn [tconcat_go]; obl_with ltac:(apply IHi).
+Qed.
+
+Lemma obl_format_go fuel : forall f vs acc, oblivious (format_go d n fuel f vs acc).
+Proof.
+  induction fuel as [|fuel IHf]; intros f vs acc; cbn [format_go];
+    obl_with ltac:(first [apply IHf | ihv IH]).
+Qed.
+
+Lemma step_builtin b args : oblivious (call_builtin d (S n) b args).
+Proof.
+  rewrite call_builtin_S.
+  obl_with ltac:(first [ihv IH | apply obl_minmax_go | apply obl_char_go | apply obl_tconcat_go | apply obl_format_go]).
+Qed.
+
+Lemma rel2_call_closure c1 c2 args : clos_rel c1 c2 ->
+  rel2 eq (call_closure d n (effective_params c1) (closure_variadic c1) (closure_block c1) (c_env c1) args)
+          (call_closure d n (effective_params c2) (closure_variadic c2) (closure_block c2) (c_env c2) args).
+Proof.
+  intros Hc. pose proof Hc as (H1 & H2 & H3 & H4). unfold call_closure. rewrite <- H2, <- H3.
+  eapply rel2_bind; [apply rel2_bind_params; exact H1|]. intros r1 r2 [<- Hr]. cbv zeta.
+  replace (List.length (effective_params c2)) with (List.length (effective_params c1))
+    by (unfold param_names in H1; rewrite <- (map_length param_name), H1, map_length; reflexivity).
+  apply rel2_bind_eq.
+  - apply (sa_block _ IH) with (P := fun x => ment_block [x] (closure_block c1)).
+    + intros x Hx. exact Hx.
+    + apply env_agree_call; assumption.
+  - intros sg. destruct sg; obl.
+Qed.
+
+Lemma step_call f args : oblivious (call d (S n) f args).
+Proof.
+  destruct f; try (rewrite call_S_other by exact I; obl_with ltac:(ihv IH)).
+  - intros s1 s2 Hs. rewrite !call_S_closure.
+    eapply res_rel_bind; [apply rel2_get_closure; exact Hs|].
+    intros c1 c2 t1 t2 Hc Ht. now apply rel2_call_closure.
+  - rewrite call_S_builtin. apply (sa_builtin _ IH).
+  - rewrite call_S_ext. apply obl_call_ext.
+Qed.
+
+(** the induction hypothesis for the functions that read the environment *)
+Ltac side := first [eassumption | cov].
+Ltac envside := first [eassumption | apply env_agree_cons; eassumption].
+Ltac ihe :=
+  idtac;
+  lazymatch goal with
+  | |- rel2 _ (eval _ _ _ _ _) (eval _ _ _ _ _) => eapply (sa_eval _ IH); [|envside]; side
+  | |- rel2 _ (eval1 _ _ _ _ _) (eval1 _ _ _ _ _) => eapply (sa_eval1 _ IH); [|envside]; side
+  | |- rel2 _ (eval_list _ _ _ _ _) (eval_list _ _ _ _ _) => eapply (sa_eval_list _ IH); [|envside]; side
+  | |- rel2 _ (eval_args _ _ _ _ _) (eval_args _ _ _ _ _) => eapply (sa_eval_args _ IH); [|envside]; side
+  | |- rel2 _ (fill_table _ _ _ _ _ _ _) (fill_table _ _ _ _ _ _ _) => eapply (sa_fill _ IH); [|envside]; side
+  | |- rel2 _ (exec_block _ _ _ _ _) (exec_block _ _ _ _ _) => eapply (sa_block _ IH); [|envside]; side
+  | |- rel2 _ (exec_stmts _ _ _ _ _ _) (exec_stmts _ _ _ _ _ _) => eapply (sa_stmts _ IH); [|envside]; side
+  | |- rel2 _ (eval_target _ _ _ _ _) (eval_target _ _ _ _ _) => eapply (sa_eval_target _ IH); [|envside]; side
+  | |- rel2 _ (exec_while _ _ _ _ _ _) (exec_while _ _ _ _ _ _) => eapply (sa_while _ IH); [| |envside]; side
+  | |- rel2 _ (exec_repeat _ _ _ _ _ _) (exec_repeat _ _ _ _ _ _) => eapply (sa_repeat _ IH); [| |envside]; side
+  | |- rel2 _ (exec_numfor _ _ _ _ _ _ _ _ _) (exec_numfor _ _ _ _ _ _ _ _ _) => eapply (sa_numfor _ IH); [|envside]; side
+  | |- rel2 _ (exec_genfor _ _ _ _ _ _ _ _ _) (exec_genfor _ _ _ _ _ _ _ _ _) => eapply (sa_genfor _ IH); [|envside]; side
+  | |- rel2 (stmt_res_rel _) (ret _) (ret _) => apply rel2_ret; split; cbn [fst snd]; [eassumption|reflexivity]
+  | |- _ => ihv IH
+  end.
+
+Lemma rel2_if_go P rho1 rho2 va els bs :
+  Forall (covers_ebranch P) bs -> covers_expr P els -> env_agree P rho1 rho2 ->
+  rel2 eq (if_go d n rho1 va els bs) (if_go d n rho2 va els bs).
+Proof.
+  intros Hb Hc He. induction bs as [|[c r] bs IHb].
+  - rewrite !if_go_nil. obl_with ihe.
+  - finv. rewrite !if_go_cons. obl_with ltac:(first [ihe | now apply IHb]).
+Qed.
+
+Lemma rel2_interp_go P rho1 rho2 va segs : forall acc,
+  Forall (covers_iseg P) segs -> env_agree P rho1 rho2 ->
+  rel2 eq (interp_go d n rho1 va segs acc) (interp_go d n rho2 va segs acc).
+Proof.
+  induction segs as [|[s|e] segs IHs]; intros acc Hc He.
+  - rewrite !interp_go_nil. obl.
+  - finv. rewrite !interp_go_str. now apply IHs.
+  - finv. rewrite !interp_go_expr. obl_with ltac:(first [ihe | now apply IHs]).
+Qed.
+
+Lemma step_eval P rho1 rho2 va e : covers_expr P e -> env_agree P rho1 rho2 ->
+  rel2 eq (eval d (S n) rho1 va e) (eval d (S n) rho2 va e).
+Proof.
+  intros Hc He. destruct e.
+  - rewrite !eval_S_nil. obl.
+  - rewrite !eval_S_true. obl.
+  - rewrite !eval_S_false. obl.
+  - rewrite !eval_S_number. obl.
+  - rewrite !eval_S_string. obl.
+  - rewrite !eval_S_interp. apply rel2_interp_go with (P := P); [cov|assumption].
+  - rewrite !eval_S_varargs. obl.
+  - rewrite !eval_S_ident. rewrite (He x) by (apply Hc; rewrite ment_ident; apply is_target_self).
+    obl_with ihe.
+  - rewrite !eval_S_field. obl_with ihe.
+  - rewrite !eval_S_index. obl_with ihe.
+  - rewrite !eval_S_call. obl_with ihe.
+  - rewrite !eval_S_function. apply rel2_bind_eq; [|intros; obl].
+    apply rel2_new_closure, clos_rel_same. intros x Hx. apply He, Hc. now rewrite ment_function.
+  - rewrite !eval_S_if. apply rel2_if_go with (P := P); [cov|cov|assumption].
+  - rewrite !eval_S_paren. obl_with ihe.
+  - rewrite !eval_S_table. obl_with ihe.
+  - rewrite !eval_S_unary. obl_with ihe.
+  - destruct op;
+      first [rewrite !eval_S_and | rewrite !eval_S_or | rewrite !eval_S_binop by reflexivity; unfold binop_sem];
+      obl_with ihe.
+  - rewrite !eval_S_typecast. obl_with ihe.
+  - rewrite !eval_S_typeinst. obl_with ihe.
+Qed.
+
+Lemma step_eval1 P rho1 rho2 va e : covers_expr P e -> env_agree P rho1 rho2 ->
+  rel2 eq (eval1 d (S n) rho1 va e) (eval1 d (S n) rho2 va e).
+Proof. intros Hc He. rewrite !eval1_S. obl_with ihe. Qed.
+
+Lemma step_eval_list P rho1 rho2 va es : Forall (covers_expr P) es -> env_agree P rho1 rho2 ->
+  rel2 eq (eval_list d (S n) rho1 va es) (eval_list d (S n) rho2 va es).
+Proof.
+  intros Hc He. destruct es as [|e [|e2 es]].
+  - rewrite !eval_list_S_nil. obl.
+  - finv. rewrite !eval_list_S_one. ihe.
+  - inversion Hc; subst. rewrite !eval_list_S_cons. obl_with ihe.
+Qed.
+
+Lemma step_eval_args P rho1 rho2 va a : covers_args P a -> env_agree P rho1 rho2 ->
+  rel2 eq (eval_args d (S n) rho1 va a) (eval_args d (S n) rho2 va a).
+Proof.
+  intros Hc He. destruct a.
+  - rewrite !eval_args_S_tuple. ihe.
+  - rewrite !eval_args_S_string. obl.
+  - rewrite !eval_args_S_table. obl_with ihe.
+Qed.
+
+Lemma obl_put a k v : oblivious (put a k v).
+Proof. unfold put. obl. Qed.
+Lemma obl_put_pos a pos v : oblivious (put_pos a pos v).
+Proof. unfold put_pos. obl_with ltac:(apply obl_put). Qed.
+Lemma obl_fill_go a vs : forall pos, oblivious (fill_go a vs pos).
+Proof.
+  induction vs as [|v vs IHv]; intros pos; cbn [fill_go]; obl_with ltac:(first [apply obl_put_pos | apply IHv]).
+Qed.
+
+Lemma step_fill P rho1 rho2 va a es pos : Forall (covers_tentry P) es -> env_agree P rho1 rho2 ->
+  rel2 eq (fill_table d (S n) rho1 va a es pos) (fill_table d (S n) rho2 va a es pos).
+Proof.
+  intros Hc He. destruct es as [|[f e|k e|e] rest].
+  - rewrite !fill_S_nil. obl.
+  - inversion Hc; subst. rewrite !fill_S_field.
+    obl_with ltac:(first [apply obl_put | ihe]).
+  - inversion Hc; subst. rewrite !fill_S_index.
+    obl_with ltac:(first [apply obl_put | ihe]).
+  - destruct rest as [|x rest].
+    + finv. rewrite !fill_S_last. obl_with ltac:(first [apply obl_fill_go | ihe]).
+    + inversion Hc; subst. rewrite !fill_S_value.
+      obl_with ltac:(first [apply obl_put_pos | ihe]).
+Qed.
+
+Lemma step_block P rho1 rho2 va b : covers_block P b -> env_agree P rho1 rho2 ->
+  rel2 eq (exec_block d (S n) rho1 va b) (exec_block d (S n) rho2 va b).
+Proof. intros Hc He. destruct b as [ss last]. rewrite !exec_block_S. ihe. Qed.
+
+Lemma step_stmts P rho1 rho2 va ss last : covers_block P (Block ss last) -> env_agree P rho1 rho2 ->
+  rel2 eq (exec_stmts d (S n) rho1 va ss last) (exec_stmts d (S n) rho2 va ss last).
+Proof.
+  intros Hc He. destruct ss as [|st rest].
+  - rewrite !exec_stmts_S_nil. destruct last as [[| |es]|]; obl_with ihe.
+  - rewrite !exec_stmts_S_cons. eapply rel2_bind.
+    + eapply (sa_stmt _ IH); [|eassumption]. cov.
+    + intros [r1 g1] [r2 g2] [Hr Hg]. cbn [fst snd] in Hr, Hg. subst g2.
+      unfold stmts_cont. destruct g1; obl_with ihe.
+Qed.
+
+Lemma step_assign_target rho1 rho2 t v :
+  rel2 eq (assign_target d (S n) rho1 t v) (assign_target d (S n) rho2 t v).
+Proof.
+  destruct t as [[[a|] o] k].
+  - rewrite !assign_target_S_cell. obl.
+  - rewrite !assign_target_S_index. ihv IH.
+Qed.
+
+Lemma step_eval_target P rho1 rho2 va e : covers_expr P e -> env_agree P rho1 rho2 ->
+  rel2 eq (eval_target d (S n) rho1 va e) (eval_target d (S n) rho2 va e).
+Proof.
+  intros Hc He. destruct e; try (rewrite !eval_target_S_other by reflexivity; obl).
+  - rewrite !eval_target_S_ident. rewrite (He x) by (apply Hc; rewrite ment_ident; apply is_target_self).
+    obl.
+  - rewrite !eval_target_S_field. obl_with ihe.
+  - rewrite !eval_target_S_index. obl_with ihe.
+Qed.
+
+Lemma rel2_targets_go P rho1 rho2 va vars : Forall (covers_expr P) vars -> env_agree P rho1 rho2 ->
+  rel2 eq (targets_go d n rho1 va vars) (targets_go d n rho2 va vars).
+Proof.
+  intros Hc He. induction vars as [|v vars IHv].
+  - rewrite !targets_go_nil. obl.
+  - inversion Hc; subst. rewrite !targets_go_cons. obl_with ltac:(first [ihe | now apply IHv]).
+Qed.
+
+Lemma rel2_assign_go rho1 rho2 ts : forall vs,
+  rel2 eq (assign_go d n rho1 ts vs) (assign_go d n rho2 ts vs).
+Proof.
+  induction ts as [|t ts IHt]; intros vs.
+  - rewrite !assign_go_nil. obl.
+  - rewrite !assign_go_cons. obl_with ltac:(first [ihe | apply IHt]).
+Qed.
+
+Lemma rel2_sif_go P rho1 rho2 va els bs :
+  Forall (covers_sbranch P) bs -> (forall x, optb (ment_block [x]) els = true -> P x = true) ->
+  env_agree P rho1 rho2 ->
+  rel2 eq (sif_go d n rho1 va els bs) (sif_go d n rho2 va els bs).
+Proof.
+  intros Hb Hc He. induction bs as [|[c b] bs IHb].
+  - rewrite !sif_go_nil. destruct els; obl_with ihe.
+  - inversion Hb; subst. rewrite !sif_go_cons. obl_with ltac:(first [ihe | now apply IHb]).
+Qed.
+
+Lemma obl_path_go ks : forall o, oblivious (path_go d n o ks).
+Proof.
+  induction ks as [|k ks IHk]; intros o.
+  - rewrite path_go_short by (cbn; lia). obl.
+  - destruct ks as [|k2 ks].
+    + rewrite path_go_short by (cbn; lia). obl.
+    + rewrite path_go_cons. obl_with ltac:(first [ihe | apply IHk]).
+Qed.
+
+Lemma rel2_sfunction_store P rho1 rho2 va base path c :
+  covers_expr P (EIdent base) -> env_agree P rho1 rho2 ->
+  rel2 (stmt_res_rel P) (sfunction_store d n rho1 va base path c) (sfunction_store d n rho2 va base path c).
+Proof.
+  intros Hc He. unfold sfunction_store. destruct path; obl_with ltac:(first [apply obl_path_go | ihe]).
+Qed.
+
+Lemma rel2_repeat_go P va last ss : forall rho1 rho2,
+  covers_block P (Block ss last) -> env_agree P rho1 rho2 ->
+  rel2 (stmt_res_rel P) (repeat_go d n va last ss rho1) (repeat_go d n va last ss rho2).
+Proof.
+  induction ss as [|st ss IHs]; intros rho1 rho2 Hc He.
+  - rewrite !repeat_go_nil. destruct last as [[| |es]|]; obl_with ihe.
+  - rewrite !repeat_go_cons. eapply rel2_bind.
+    + eapply (sa_stmt _ IH); [|eassumption]. cov.
+    + intros [r1 g1] [r2 g2] [Hr Hg]. cbn [fst snd] in Hr, Hg. subst g2.
+      destruct g1; try (apply rel2_ret; split; [assumption|reflexivity]).
+      apply IHs; [cov|assumption].
+Qed.
+
+Lemma step_stmt P rho1 rho2 va st : covers_stmt P st -> env_agree P rho1 rho2 ->
+  rel2 (stmt_res_rel P) (exec_stmt d (S n) rho1 va st) (exec_stmt d (S n) rho2 va st).
+Proof.
+  intros Hc He. destruct st.
+  - rewrite !exec_stmt_S_assign.
+    obl_with ltac:(first [apply rel2_targets_go with (P := P); [cov|assumption] | apply rel2_assign_go | ihe]).
+  - rewrite !exec_stmt_S_do. obl_with ihe.
+  - rewrite !exec_stmt_S_call. obl_with ihe.
+  - rewrite !exec_stmt_S_compound. obl_with ihe.
+  - rewrite !exec_stmt_S_function. apply rel2_bind_eq.
+    + apply rel2_new_closure, clos_rel_same. intros y Hy. apply He, Hc.
+      rewrite ment_sfunction, Hy. apply orb_true_r.
+    + intros c. apply rel2_sfunction_store; [|assumption].
+      intros y Hy. apply Hc. rewrite ment_sfunction. rewrite ment_ident in Hy. now rewrite Hy.
+  - rewrite !exec_stmt_S_genfor. obl_with ihe.
+  - rewrite !exec_stmt_S_if.
+    obl_with ltac:(first [apply rel2_sif_go with (P := P); [cov|cov|assumption] | ihe]).
+  - rewrite !exec_stmt_S_local. apply rel2_bind_eq; [ihe|]. intros vs.
+    eapply rel2_bind; [apply rel2_local_go; eassumption|].
+    intros r1 r2 Hr. apply rel2_ret. split; [assumption|reflexivity].
+  - rewrite !exec_stmt_S_localfunction. apply rel2_bind_eq; [obl_leaf|]. intros a.
+    apply rel2_bind_eq.
+    + apply rel2_new_closure, clos_rel_same. intros y Hy. apply (env_agree_cons P _ _ x a He).
+      apply Hc. now rewrite ment_localfunction.
+    + intros c. apply rel2_bind_eq; [obl_leaf|]. intros _. apply rel2_ret.
+      split; cbn [fst snd]; [now apply env_agree_cons|reflexivity].
+  - rewrite !exec_stmt_S_numfor. obl_with ihe.
+  - rewrite !exec_stmt_S_repeat. obl_with ihe.
+  - rewrite !exec_stmt_S_while. obl_with ihe.
+  - rewrite !exec_stmt_S_typedecl. ihe.
+  - rewrite !exec_stmt_S_typefunction. ihe.
+Qed.
+
+Lemma step_while P rho1 rho2 va c b : covers_expr P c -> covers_block P b -> env_agree P rho1 rho2 ->
+  rel2 eq (exec_while d (S n) rho1 va c b) (exec_while d (S n) rho2 va c b).
+Proof. intros Hc Hb He. rewrite !exec_while_S. obl_with ihe. Qed.
+
+Lemma step_repeat P rho1 rho2 va b c : covers_block P b -> covers_expr P c -> env_agree P rho1 rho2 ->
+  rel2 eq (exec_repeat d (S n) rho1 va b c) (exec_repeat d (S n) rho2 va b c).
+Proof.
+  intros Hb Hc He. destruct b as [ss last]. rewrite !exec_repeat_S. eapply rel2_bind.
+  - apply rel2_repeat_go; eassumption.
+  - intros [r1 g1] [r2 g2] [Hr Hg]. cbn [fst snd] in Hr, Hg. subst g2.
+    destruct g1; obl_with ihe.
+Qed.
+
+Lemma step_numfor P rho1 rho2 va x i stop step b : covers_block P b -> env_agree P rho1 rho2 ->
+  rel2 eq (exec_numfor d (S n) rho1 va x i stop step b) (exec_numfor d (S n) rho2 va x i stop step b).
+Proof. intros Hb He. rewrite !exec_numfor_S. obl_with ihe. Qed.
+
+Lemma step_genfor P rho1 rho2 va vars f s ctl b : covers_block P b -> env_agree P rho1 rho2 ->
+  rel2 eq (exec_genfor d (S n) rho1 va vars f s ctl b) (exec_genfor d (S n) rho2 va vars f s ctl b).
+Proof.
+  intros Hb He. rewrite !exec_genfor_S. apply rel2_bind_eq; [ihe|]. intros vs.
+  destruct (first vs); [obl|..];
+    (eapply rel2_bind; [apply rel2_local_go; eassumption|]; intros r1 r2 Hr; obl_with ihe).
+Qed.
+
+Lemma sim_all_S : sim_all (S n).
+Proof.
+  constructor.
+  - exact step_call.
+  - exact step_index.
+  - exact step_setindex.
+  - exact step_tostr.
+  - exact step_arith.
+  - exact step_concat.
+  - exact step_equal.
+  - exact step_less.
+  - exact step_length.
+  - exact step_builtin.
+  - exact step_eval.
+  - exact step_eval1.
+  - exact step_eval_list.
+  - exact step_eval_args.
+  - exact step_fill.
+  - exact step_block.
+  - exact step_stmts.
+  - exact step_assign_target.
+  - exact step_eval_target.
+  - exact step_stmt.
+  - exact step_while.
+  - exact step_repeat.
+  - exact step_numfor.
+  - exact step_genfor.
+Qed.
+
 End Step.
+
+Theorem sim_all_holds n : sim_all n.
+Proof. induction n as [|n IHn]; [exact sim_all_0 | exact (sim_all_S n IHn)]. Qed.
+
 End Sim.
